@@ -5,6 +5,8 @@ Mirrors, as they are in the tree (after the `fix:` commit recorded in notes/C13.
 
 * `internal/target/remote/dane.go`      : `verifyDANE`
 * `internal/target/remote/security.go`  : `daneDelivery.discoverTLSA`, `daneDelivery.CheckConn`
+* `framework/dns/dnssec.go`             : `ExtResolver.exchange` (server loop, AD sanitising),
+  `CheckCNAMEAD`, `AuthLookupCNAME`, `AuthLookupTLSA`, `isLoopback` (as the flag `Srv.loopback`)
 
 External behaviour is a parameter:
 
@@ -15,7 +17,10 @@ External behaviour is a parameter:
   Roots: pool(roots), Intermediates: pool(inters), CurrentTime: verifyDANETime}) == nil`
   (the server name and the verification time are fixed per connection, so they are folded into the
   parameter);
-* `Dns` — the results of the four `ExtResolver` calls `discoverTLSA` can make.
+* `Dns` — the results of the four `ExtResolver` calls `discoverTLSA` can make;
+* `Transport` — which message `dns.Client.ExchangeContext` hands back for one configured server
+  (the tree: plain UDP, a truncated answer is returned as it is; `udpOnly`). The resolver theorems
+  hold for EVERY transport.
 
 Certificates are opaque identities (`Nat`), TLSA association data is an opaque `tag`.
 Go panics (`connState.PeerCertificates[0]` on an empty slice) are the explicit outcome `Res.panic`.
@@ -24,12 +29,15 @@ Core Lean only.
 namespace MaddyVerif.Dane
 
 /-- `dns.TLSA` as far as `verifyDANE` looks at it. The three numeric fields are `uint8` in Go; the
-model allows any `Nat`. `tag` stands for the association data (`Certificate` hex string). -/
+model allows any `Nat`. `tag` stands for the association data (`Certificate` hex string), `owner`
+for the owner name of the RR (`Hdr.Name`: `_25._tcp.<mx>`, or whatever name a CNAME'd TLSA RRset
+lives under) as an opaque identity. No function below reads `owner`. -/
 structure Rec where
   usage : Nat
   selector : Nat
   mtype : Nat
   tag : Nat
+  owner : Nat
 deriving DecidableEq, Repr
 
 abbrev Cert := Nat
@@ -221,5 +229,112 @@ def checkConn (E : Env) (haveResolver : Bool) (fut : Except DiscErr (List Rec)) 
 /-- `PrepareConn` + `CheckConn` on one connection -/
 def connDecision (E : Env) (haveResolver : Bool) (D : Dns) (hs : Bool) (chain : List Cert) : CRes :=
   checkConn E haveResolver (discoverTLSA D) hs chain
+
+/-! ## `framework/dns/dnssec.go`: the resolver the four lookups go through -/
+
+/-- one DNS response as the resolver functions look at it. `rname`: for an A / AAAA question the
+owner name of the last address record of the answer section, compared with the question name
+(`.empty`: no such record); `recs`: the TLSA records of the answer section, in order. -/
+structure Msg where
+  rcode : Nat
+  ad : Bool
+  tc : Bool
+  rname : RName
+  recs : List Rec
+deriving Repr
+
+/-- what one configured server does with one question, per transport; `none` = no usable answer
+(network error, packet that does not parse) -/
+structure SrvAns where
+  udp : Option Msg
+  tcp : Option Msg
+deriving Repr
+
+/-- what `e.cl.ExchangeContext(ctx, msg, addr)` hands back for one server -/
+abbrev Transport := SrvAns → Option Msg
+
+/-- the transport of the tree: `dns.Client{Net: ""}` — UDP, one attempt, no fall-back to TCP when the
+answer is truncated (the truncated message is returned as it is) -/
+def udpOnly : Transport := fun a => a.udp
+
+/-- `RCodeError{…, rcode}` under `dns.IsNotFound` -/
+def rcodeErr (rcode : Nat) : LErr := if rcode == 3 then .notFound else .other
+
+/-- `(resp, lastErr)` of `ExtResolver.exchange` -/
+inductive XRes where
+  /-- `resp == nil ∧ lastErr == nil`: `Cfg.Servers` is empty; every caller dereferences `resp` -/
+  | nilResp
+  | err (e : LErr)
+  | ok (m : Msg)
+deriving Repr
+
+/-- the `for _, srv := range e.Cfg.Servers` loop; a server is `(isLoopback(srv), its answer)`;
+`acc` = `(resp, lastErr)` so far -/
+def exchangeLoop (T : Transport) : List (Bool × SrvAns) → XRes → XRes
+  | [], acc => acc
+  | (loopback, a) :: rest, _ =>
+    match T a with
+    | none => exchangeLoop T rest (.err .other)                 -- lastErr != nil: continue
+    | some m =>
+      if m.rcode != 0 then exchangeLoop T rest (.err (rcodeErr m.rcode))
+      else .ok { m with ad := m.ad && loopback }                -- AD disregarded unless loopback; break
+
+def exchange (T : Transport) (servers : List (Bool × SrvAns)) : XRes :=
+  exchangeLoop T servers .nilResp
+
+/-- `ExtResolver.AuthLookupTLSA`; `none` = nil dereference -/
+def authLookupTLSA : XRes → Option TLSAAns
+  | .nilResp => none
+  | .err e => some ⟨some e, false, []⟩
+  | .ok m => some ⟨none, m.ad, m.recs⟩
+
+/-- `ExtResolver.AuthLookupCNAME` (the target is not used by `discoverTLSA`) -/
+def authLookupCNAME : XRes → Option (Except LErr Bool)
+  | .nilResp => none
+  | .err e => some (.error e)
+  | .ok m => some (.ok m.ad)
+
+/-- `ExtResolver.CheckCNAMEAD`: `xa` / `xaaaa` = the exchanges for the A and the AAAA question (the
+second one is made only when the first answer has no A record; its error is dropped) -/
+def checkCNAMEAD (xa xaaaa : XRes) : Option (Except LErr (Bool × RName)) :=
+  match xa with
+  | .nilResp => none
+  | .err e => some (.error e)
+  | .ok m =>
+    if m.rname != .empty then some (.ok (m.ad, m.rname))
+    else
+      match xaaaa with
+      | .nilResp => none
+      | .err _ => some (.ok (false, .empty))
+      | .ok m6 =>
+        if m6.rname != .empty then some (.ok (m6.ad, m6.rname)) else some (.ok (false, .empty))
+
+/-- one configured server: `isLoopback(srv)` and its answers to the five questions `discoverTLSA`
+can ask (A and AAAA for the MX name, CNAME for the MX name, TLSA under the canonical and under the
+MX name) -/
+structure Srv where
+  loopback : Bool
+  a : SrvAns
+  aaaa : SrvAns
+  cname : SrvAns
+  tlsaR : SrvAns
+  tlsaM : SrvAns
+deriving Repr
+
+def ask (T : Transport) (W : List Srv) (q : Srv → SrvAns) : XRes :=
+  exchange T (W.map (fun s => (s.loopback, q s)))
+
+/-- the four lookups through the resolver configured with servers `W`; `none` = nil dereference
+(`W = []`, which `NewExtResolver` never leaves) -/
+def resolverDns (T : Transport) (W : List Srv) : Option Dns :=
+  match checkCNAMEAD (ask T W (·.a)) (ask T W (·.aaaa)), authLookupCNAME (ask T W (·.cname)),
+      authLookupTLSA (ask T W (·.tlsaR)), authLookupTLSA (ask T W (·.tlsaM)) with
+  | some ck, some cn, some tr, some tm => some ⟨ck, cn, tr, tm⟩
+  | _, _, _, _ => none
+
+/-- `PrepareConn` + `CheckConn` with the lookups made through the resolver -/
+def resolverConn (E : Env) (T : Transport) (W : List Srv) (hs : Bool) (chain : List Cert) :
+    Option CRes :=
+  (resolverDns T W).map (fun D => connDecision E true D hs chain)
 
 end MaddyVerif.Dane
